@@ -72,6 +72,12 @@ CHECKS.update({
    text="For all real durations ts > 0, all real boundary data and a symbolic query time: position/velocity/acceleration/jerk at 0 and ts equal the requested values exactly (in the reals), coefficient accessors and evaluators are the successive formal derivatives, eval/evar equal their defining sums for coefficient vectors of length 0..6 (9), order reversal is an involution.",
    note=E2NOTE + REALNOTE + " Double literals that are roundings of simple rationals (1/6) denote those rationals."),
 })
+CHECKS.update({
+ "C08": dict(engine="llsym", cat="model_checking", design="4/C08",
+   technique="symbolic execution of src/linalg_plu.c, linalg_ldl.c, linalg_llt.c IR (llsym) with a_real as z3 Real; every pivoting pattern is a forked path; reconstruction, solve, inverse and determinant identities decided by z3 (nonlinear real arithmetic)",
+   text="For all real matrices of order 1..3 (factor/solve; thorough 4) and 1..2 (inverse/determinant; thorough 3): on every success path p is a permutation with matching parity, |L_ij| <= 1, L*U = P*A / L*D*L^T = A / L*L^T = A with L_ii > 0, solve gives A*x = b, inv and inv_ agree and give A*A^-1 = I, det equals the Leibniz determinant, sgndet its sign; zero columns, equal rows and non-positive Cholesky pivots are reported as failure on every path. The rounding half of the statement is outside.",
+   note=E2NOTE + REALNOTE + " log is an uninterpreted function; sqrt(x) is the y >= 0 with y*y = x."),
+})
 NOT_YET = {}
 
 def main():
